@@ -192,7 +192,11 @@ def run_real(case, sign_real_bls=False):
         except Exception:
             pass
     try:
-        g = opg.fill() if case['mode'] == 'fill' else opg.autofill()
+        if case.get('gas_price') is not None:
+            # the documented per-call keyword, set to the node's default or a HIGHER price: the fee may only grow
+            g = opg.fill(minimal_nanotez_per_gas_unit=case['gas_price'])
+        else:
+            g = opg.fill() if case['mode'] == 'fill' else opg.autofill()
     except ZeroDivisionError:
         return {'error': 'undefined'}
     except KeyError:
@@ -309,6 +313,8 @@ def run(ctx):
     for i, c in enumerate(cases):
         if i % 9 == 4:
             c['prior_override'] = ctx.rng.choice([0, 1, 50, 99, 100, 1000])
+        if i % 9 == 7 and c['mode'] == 'fill':
+            c['gas_price'] = ctx.rng.choice([100, 100, 101, 150, 250, 999, 1000, 1999, 2500])
     bls_budget = [6 if ctx.tier == 'quick' else 40]
 
     jobs = []
@@ -326,7 +332,7 @@ def run(ctx):
         results = [run_real(*j) for j in jobs]
     lines, idxs = [], []
     for i, (case, res) in enumerate(zip(cases, results)):
-        if 'error' not in res and float_guard_ok(case):
+        if 'error' not in res and float_guard_ok(case) and case.get('gas_price') is None:
             idxs.append(i)
             lines.append(model_line(case, res))
     # float-division guard stream
@@ -356,6 +362,8 @@ def run(ctx):
         ctx.count('mode', case['mode'])
         if case.get('prior_override') is not None:
             ctx.count('earlier_call_with_gas_price_override', case['prior_override'])
+        if case.get('gas_price') is not None:
+            ctx.count('explicit_gas_price_at_or_above_default', case['gas_price'])
         ctx.count('curve', case['curve'])
         ctx.count('batch_size', 1 if n == 1 else 2 if n == 2 else '3-7' if n < 8 else '8-20' if n <= 20 else '21-50')
         for c in case['contents']:
@@ -383,8 +391,9 @@ def run(ctx):
             m = len(small['contents'])
             # would a 64-byte signature have been accepted?  then the defect is the tz4 allowance, otherwise the batch
             sig_only = tz4 and sn.fee_accepted(p2['fee'], p2['size'] - 32, p2['gas'])
-            key = f"{small['mode']}:{'tz4-signature-allowance' if sig_only else ('batch-fee-first-content-only' if m >= 2 else 'single')}"
-            what = (f"{small['mode']}() then sign(), source {r2['pkh'][:3]}, {m} x {sorted({c['kind'] for c in small['contents']})}: "
+            gp = f"(minimal_nanotez_per_gas_unit={small['gas_price']})" if small.get('gas_price') is not None else ''
+            key = f"{small['mode']}{gp}:{'tz4-signature-allowance' if sig_only else ('batch-fee-first-content-only' if m >= 2 else 'single')}"
+            what = (f"{small['mode']}({gp[1:-1]}) then sign(), source {r2['pkh'][:3]}, {m} x {sorted({c['kind'] for c in small['contents']})}: "
                     f"fee {p2['fee']} mutez < node minimum {sn.min_fee_mutez(p2['size'], p2['gas'])} "
                     f"(signed size {p2['size']} bytes, total gas limit {p2['gas']})")
             ctx.violation(key, what, {'case': small, 'fee': p2['fee'], 'size': p2['size'], 'gas': p2['gas'],
